@@ -3,5 +3,6 @@ NEXT NextCases
 INVARIANT NoEarlyWrite
 INVARIANT AttachLast
 INVARIANT Outcome
+INVARIANT SpecCarriesNothing
 INVARIANT DelFrame
 CHECK_DEADLOCK FALSE
